@@ -21,6 +21,7 @@ func runC20(c *Ctx) {
 	R.Rule("C20.R2", "every other rewrite of an attribute value is a constant, a projection of the old value (strings.Join of filtered tokens) or validURL's / the rewriter's result — never an extension")
 	R.Rule("C20.R4", "a synthesised attribute is never the sole survivor: every append of a sanitiser-made attribute (rel, target, crossorigin, sandbox) is dominated by evidence that the attribute list is non-empty after URL validation — a len(list) > 0 test, or a found-flag raised while traversing the list, on a version of the list that is not the input of the validURL filter; otherwise an element whose URL attributes were all rejected leaves pass 1 with only the synthesised attribute, which pass 2 strips (the policy does not allow it), so the element comes out bare or is dropped")
 	R.Rule("C20.R5", "synthesised attributes keep their place: on no path (per element name) are two sanitiser-made attributes with different keys both appended — if K1 is appended before K2, a policy that allows K2 but not K1 on that element keeps K2 in place on the second pass and re-appends K1 after it, so the attribute order flips")
+	R.Rule("C20.R6", "the allow-list filter is a fixed point: each incoming attribute is kept at most once per pass (a duplicated attribute is duplicated again by the next pass)")
 	R.Rule("C20.R3", "single escaping point: each token is written once, through Token.String (decided by C06.R1/R2, referenced)")
 	R.Assume(TrustGo, "idempotence of net/url normalisation and of the x/net/html decode/escape round trip is NOT decided", "the del/ins cite exception of UGCPolicy is outside the claimed clause")
 	fn := c.P.Func(load.ModPath, "(*Policy).sanitizeAttrs")
@@ -175,6 +176,7 @@ func runC20(c *Ctx) {
 	}
 	R.Role("C20.R1", "synthesised attribute appends", len(synths), 5)
 	c20Order(c, fn)
+	keptAtMostOnce(c, "C20.R6")
 	c20SoleSurvivor(c, fn, A, synthKeys, func() (out []c20Synth) {
 		for _, sy := range synths {
 			out = append(out, c20Synth{sy.call, sy.key})
